@@ -21,6 +21,7 @@
 package main
 
 import (
+	"encoding/json"
 	"fmt"
 	"go/scanner"
 	"go/token"
@@ -50,6 +51,9 @@ type dbgProg struct {
 	Funcs     [][2]int `json:"functions,omitempty"`
 	DeadLines [][2]int `json:"never_executed_lines,omitempty"` // 1-based, inclusive
 	Key       string   `json:"key,omitempty"`                  // corpus: failure key (known finding)
+	// Defer (corpus files only): the exact input of a finding that is not yet registered in known_findings.json; while its
+	// key is not registered a failure is listed in report.json extra "deferred_corpus_failures" instead of being failed
+	Defer bool `json:"defer_until_registered,omitempty"`
 	nDrop     int      // statements in constant-false branches
 }
 
@@ -428,6 +432,7 @@ type dbgEvent struct {
 	Line, Col  int
 	K          int    // exec: marker
 	Cmd        string // stop: the command answered at the prompt
+	Idx        int    // stop: index of that command in the script
 	Breakpoint bool
 }
 
@@ -480,7 +485,7 @@ func (s *stockDriver) cb(ir *fast.Interp, env *fast.Env, bp bool) fast.DebugOp {
 	if m := stopRx.FindStringSubmatch(out.String()); m != nil {
 		line, _ := strconv.Atoi(m[3])
 		col, _ := strconv.Atoi(m[4])
-		s.events = append(s.events, dbgEvent{Stop: true, File: m[2], Line: line, Col: col, Breakpoint: bp, Cmd: cmd})
+		s.events = append(s.events, dbgEvent{Stop: true, File: m[2], Line: line, Col: col, Breakpoint: bp, Cmd: cmd, Idx: s.i})
 	} else if out.Len() != 0 && s.bad == "" && !strings.Contains(out.String(), " at IP=") {
 		s.bad = out.String()
 	}
@@ -521,6 +526,66 @@ func tokenBounds(text string) map[int]int {
 	return out
 }
 
+// closersAfter: for every offset at which a token ends, the number of `}` tokens that follow it directly
+// (comments and automatic semicolons skipped)
+func closersAfter(text string) map[int]int {
+	fs := token.NewFileSet()
+	f := fs.AddFile("x", fs.Base(), len(text))
+	var s scanner.Scanner
+	s.Init(f, []byte(text), func(token.Position, string) {}, 0)
+	var ends []int
+	var closer []bool
+	for {
+		pos, tok, lit := s.Scan()
+		if tok == token.EOF {
+			break
+		}
+		if tok == token.SEMICOLON && lit == "\n" {
+			continue
+		}
+		n := len(lit)
+		if n == 0 {
+			n = len(tok.String())
+		}
+		ends = append(ends, f.Offset(pos)+n)
+		closer = append(closer, tok == token.RBRACE)
+	}
+	out := map[int]int{}
+	run := 0
+	for i := len(ends) - 1; i >= 0; i-- {
+		out[ends[i]] = run
+		if closer[i] {
+			run++
+		} else {
+			run = 0
+		}
+	}
+	return out
+}
+
+// registeredKeys: the keys (key + other_keys) recorded for property C27 in $VERIF_DIR/known_findings.json
+func registeredKeys(dir string) map[string]bool {
+	out := map[string]bool{}
+	var kf struct {
+		Findings []struct {
+			Property string   `json:"property"`
+			Key      string   `json:"key"`
+			Other    []string `json:"other_keys"`
+		} `json:"findings"`
+	}
+	if b, err := os.ReadFile(filepath.Join(dir, "known_findings.json")); err == nil && json.Unmarshal(b, &kf) == nil {
+		for _, f := range kf.Findings {
+			if f.Property == "C27" {
+				out[f.Key] = true
+				for _, k := range f.Other {
+					out[k] = true
+				}
+			}
+		}
+	}
+	return out
+}
+
 func (rn *runner) runDbg(p dbgProg) (stops, checked int, afterDrop bool) {
 	rep := rn.rep
 	key := fmt.Sprintf("dbg:%s:%q", p.Mode, p.Text)
@@ -533,6 +598,11 @@ func (rn *runner) runDbg(p dbgProg) (stops, checked int, afterDrop bool) {
 			return
 		}
 		failed = true
+		if p.Key != "" && p.Defer && !registeredKeys(os.Getenv("VERIF_DIR"))[p.Key] {
+			d, _ := rep.Extra["deferred_corpus_failures"].([]string)
+			rep.Extra["deferred_corpus_failures"] = append(d, fmt.Sprintf("%s: %s: got %v want %v", key, what, got, want))
+			return
+		}
 		rep.Fail(vh.Failure{Key: key, What: what, Input: map[string]interface{}{"debugger_program": p, "options": "OptDebugger, stock fast/debug.Debugger, script then 'step' for ever"}, Got: got, Want: want})
 	}
 	ir := fast.New()
@@ -597,6 +667,20 @@ func (rn *runner) runDbg(p dbgProg) (stops, checked int, afterDrop bool) {
 		return best
 	}
 	toks := tokenBounds(p.Text)
+	closers := closersAfter(p.Text)
+	// rebuiltBlockEnd: off lies k >= 1 bytes after the end of a statement that is followed by at least k closing braces
+	// (the arithmetic of known finding C27-K2, see below)
+	rebuiltBlockEnd := func(off int) bool {
+		for k := 1; k <= 8 && off-k >= 0; k++ {
+			if toks[off-k]&2 != 0 {
+				return closers[off-k] >= k
+			}
+			if toks[off-k] != 0 {
+				return false
+			}
+		}
+		return false
+	}
 	inDead := func(off int) bool {
 		for _, d := range p.Dead {
 			if off >= d[0] && off < d[1] {
@@ -638,6 +722,48 @@ func (rn *runner) runDbg(p dbgProg) (stops, checked int, afterDrop bool) {
 		}
 		// a statement is announced at the start of one of its tokens; the synthetic steps at the end of a block or
 		// of a case clause are announced at the end of the last statement (the position just after a token)
+		execNext := i+1 < len(ev) && !ev[i+1].Stop && ev[i+1].K > 0
+		if execNext {
+			// the marker logged next belongs to another function than the announced position: the step returned from
+			// (or was announced in) a function whose caller does not announce its own next statement (stop rule, C19-C);
+			// the announced position is then not the statement that logged the marker
+			for hi := range p.Hdrs {
+				for _, m := range p.Hdrs[hi].Marks {
+					if m == ev[i+1].K && funcAt(off) != funcAt(p.Hdrs[hi].Start) {
+						execNext = false
+					}
+				}
+			}
+		}
+		// Only a stop answered with "step" shows whether it ran a source statement (the next event is then a marker) or was
+		// a synthetic step (the next event is another stop); after next/finish/continue markers may follow either kind.
+		// Where the verdict needs that distinction and the command was not "step", the program is run again with the script
+		// cut at this stop (so it is answered with "step", like all later ones) and the re-run decides.
+		recheck := func() bool {
+			if e.Cmd == "step" || p.Key != "" || e.Idx >= len(p.Script) {
+				return false
+			}
+			q := p
+			q.Script = append([]string{}, p.Script[:e.Idx]...)
+			rep.Dist("dbg:stop-rechecked-with-step")
+			_, _, a2 := rn.runDbg(q)
+			afterDrop = afterDrop || a2
+			return true
+		}
+		if off >= 0 && off <= len(p.Text) && e.Col >= 1 && toks[off] == 0 && rebuiltBlockEnd(off) {
+			// known finding C27-K2 (class): the macroexpander unwraps every one-statement block without declaration and
+			// ast2.ToBlockStmt re-wraps the statement S with Rbrace = S.End(), so the End() of each enclosing compound
+			// statement is one byte further; the synthetic steps placed at node.End()-1 (jump back of for/range) or at
+			// list[n-1].End() (end of a case body) are then announced 1..k bytes after the end of S, where no token starts or
+			// ends (often the first column of the next line).  Replayed exactly by corpus/C27/21-*.json.
+			if recheck() {
+				break
+			}
+			if !execNext && p.Key == "" {
+				rep.Dist("avoided-known-finding-class:C27-K2")
+				continue
+			}
+		}
 		if off < 0 || off > len(p.Text) || e.Col < 1 || toks[off] == 0 {
 			fail("debugger stop: the reported line:column is neither the start nor the end of a token of the input", here+" = "+excerpt(off), "a token boundary")
 			break
@@ -645,8 +771,10 @@ func (rn *runner) runDbg(p dbgProg) (stops, checked int, afterDrop bool) {
 		if toks[off]&1 == 0 {
 			continue // end of a token: synthetic step, nothing more to compare
 		}
-		execNext := i+1 < len(ev) && !ev[i+1].Stop && ev[i+1].K > 0
 		if inDead(off) {
+			if recheck() {
+				break
+			}
 			if !execNext && p.Key == "" {
 				// known finding C27-K1 (class): a step that runs no source statement (the jump at the end of a then-branch,
 				// the scope pop/push of a block) is announced at the position of the else branch / of the statement
